@@ -48,9 +48,15 @@ type Case struct {
 	OpLog    []string `json:"operations,omitempty"`
 }
 
+// rawSpec: the previous content ("old") is shorter than the new one, which is longer than the
+// second writer's: a reader that trusts a size it learnt earlier sees a cut-off file.
 func rawSpec(marker string) *specs.Spec {
+	pad := 64
+	if marker == "old" {
+		pad = 3
+	}
 	return &specs.Spec{Version: "0.5.0", Kind: "vendor.com/class", Devices: []specs.Device{
-		{Name: marker, ContainerEdits: specs.ContainerEdits{Env: []string{"MARK=" + marker, "PAD=" + strings.Repeat("x", 64)}}}}}
+		{Name: marker, ContainerEdits: specs.ContainerEdits{Env: []string{"MARK=" + marker, "PAD=" + strings.Repeat("x", pad)}}}}}
 }
 
 var faultAlphabet = map[string][]string{
